@@ -1393,7 +1393,7 @@ static int dd_source_name(struct demangle_data *dd)
 	if (num < 0)
 		return -1;
 
-	if (dd_eof(dd) || dd->pos + num > dd->len)
+	if (dd_eof(dd) || num > dd->len - dd->pos)
 		DD_DEBUG(dd, "shorter name", 0);
 
 	dd_add_debug(dd);
